@@ -13,6 +13,7 @@ package rules
 
 import (
 	"fmt"
+	"go/constant"
 	"go/token"
 	"go/types"
 	"sort"
@@ -450,6 +451,7 @@ type a5Ancestry struct {
 	Calls      map[*ssa.Call]bool                // every call met
 	ParamReach bool                              // a parameter of slice type ends a path (Reach) too
 	Callers    func(f *ssa.Function) []*ssa.Call // if set, a parameter is followed into the arguments of these call sites
+	Into       func(f *ssa.Function) bool        // if set and true for a static callee, its returned values are followed too
 }
 
 func (a *a5Ancestry) Count(v ssa.Value) a5Count {
@@ -584,6 +586,22 @@ func (a *a5Ancestry) count(v ssa.Value, onPath map[ssa.Value]bool, depth int) a5
 		for _, ar := range args {
 			sub(ar)
 		}
+		if g := x.Call.StaticCallee(); g != nil && g.Blocks != nil && a.Into != nil && a.Into(g) {
+			for _, b := range g.Blocks {
+				if rt, ok := b.Instrs[len(b.Instrs)-1].(*ssa.Return); ok {
+					for _, rv := range rt.Results {
+						switch rv.Type().Underlying().(type) {
+						case *types.Slice, *types.Array, *types.Struct:
+							sub(rv)
+						case *types.Basic:
+							if bt := rv.Type().Underlying().(*types.Basic); bt.Info()&types.IsString != 0 {
+								sub(rv)
+							}
+						}
+					}
+				}
+			}
+		}
 		if a.IsMarked != nil && a.IsMarked(x) && res.Reach {
 			res.Min++
 			res.Max++
@@ -592,4 +610,79 @@ func (a *a5Ancestry) count(v ssa.Value, onPath map[ssa.Value]bool, depth int) a5
 		res.Opaque = fmt.Sprintf("derivation through %T", v)
 	}
 	return res
+}
+
+// a5LenTest interprets a comparison between a length (a value accepted by isLen, known to be >= 0) and an integer
+// constant. nonZeroSucc is the successor index (0 = true edge, 1 = false edge) on which the length is certainly > 0,
+// zeroSucc the one on which it is certainly 0 (-1 if neither edge guarantees it).
+func a5LenTest(bo *ssa.BinOp, isLen func(ssa.Value) bool) (nonZeroSucc, zeroSucc int, ok bool) {
+	op := bo.Op
+	var k *ssa.Const
+	switch {
+	case isLen(bo.X):
+		k, _ = bo.Y.(*ssa.Const)
+	case isLen(bo.Y):
+		k, _ = bo.X.(*ssa.Const)
+		switch op {
+		case token.LSS:
+			op = token.GTR
+		case token.GTR:
+			op = token.LSS
+		case token.LEQ:
+			op = token.GEQ
+		case token.GEQ:
+			op = token.LEQ
+		}
+	}
+	if k == nil || k.Value == nil {
+		return -1, -1, false
+	}
+	kv, exact := constantInt64(k)
+	if !exact {
+		return -1, -1, false
+	}
+	p := func(n int64) bool {
+		switch op {
+		case token.EQL:
+			return n == kv
+		case token.NEQ:
+			return n != kv
+		case token.LSS:
+			return n < kv
+		case token.LEQ:
+			return n <= kv
+		case token.GTR:
+			return n > kv
+		case token.GEQ:
+			return n >= kv
+		}
+		return false
+	}
+	switch op {
+	case token.EQL, token.NEQ, token.LSS, token.LEQ, token.GTR, token.GEQ:
+	default:
+		return -1, -1, false
+	}
+	nonZeroSucc, zeroSucc = 1, -1
+	if !p(0) {
+		nonZeroSucc = 0
+	}
+	switch op {
+	case token.EQL, token.LSS, token.LEQ:
+		if p(0) && !p(1) {
+			zeroSucc = 0
+		}
+	case token.NEQ, token.GTR, token.GEQ:
+		if !p(0) && p(1) {
+			zeroSucc = 1
+		}
+	}
+	return nonZeroSucc, zeroSucc, true
+}
+
+func constantInt64(k *ssa.Const) (int64, bool) {
+	if k.Value == nil || k.Value.Kind() != constant.Int {
+		return 0, false
+	}
+	return constant.Int64Val(k.Value)
 }
